@@ -136,7 +136,7 @@ func runC11(s *sim.Sim, variant int) {
 	}
 	minimize := s.Chance(0.5, "minimize")
 	var hedge time.Duration
-	if minimize && s.Chance(0.5, "hedging") {
+	if (minimize && s.Chance(0.5, "hedging")) || (!minimize && s.Chance(0.2, "hedging-delay-without-minimisation")) {
 		hedge = time.Duration(s.Range(1, 5, "hedge-s")) * time.Second
 	}
 	var legacyDelay time.Duration
@@ -362,6 +362,9 @@ func runC11(s *sim.Sim, variant int) {
 				if len(startedZones) > minZ+cs.failedZones()+ticks {
 					s.Fail("minimisation-exceeded", "", "zone-aware: requests started in %d zones, minimum %d + %d failed zones + %d hedging ticks", len(startedZones), minZ, cs.failedZones(), ticks)
 				}
+				if want := minZ + cs.failedZones() + ticks; !returned && terminalSeen() == nil && len(startedZones) < want && len(startedZones) < len(cs.zones) {
+					s.Fail("held-back-request-not-released", "", "zone-aware: requests started in %d of %d zones %v after the call began; expected %d (minimum %d + %d failed zones + %d hedging ticks of %v)", len(startedZones), len(cs.zones), s.Elapsed()-t0, want, minZ, cs.failedZones(), ticks, hedge)
+				}
 				if len(startedZones) > minZ {
 					if ticks > 0 {
 						hedgeReleased = true
@@ -394,6 +397,9 @@ func runC11(s *sim.Sim, variant int) {
 				if started > minI+cs.failures()+ticks {
 					s.Fail("minimisation-exceeded", "", "requests started for %d instances, minimum %d + %d failures + %d hedging ticks", started, minI, cs.failures(), ticks)
 				}
+				if want := minI + cs.failures() + ticks; !returned && terminalSeen() == nil && started < want && started < len(cs.rs.Instances) {
+					s.Fail("held-back-request-not-released", "", "requests started for %d of %d instances %v after the call began; expected %d (minimum %d + %d failures + %d hedging ticks of %v)", started, len(cs.rs.Instances), s.Elapsed()-t0, want, minI, cs.failures(), ticks, hedge)
+				}
 				if started > minI {
 					if ticks > 0 {
 						hedgeReleased = true
@@ -401,6 +407,14 @@ func runC11(s *sim.Sim, variant int) {
 					if cs.failures() > 0 {
 						failureReleased = true
 					}
+				}
+			}
+		}
+		// --- without minimisation every instance is called straight away (the hedging delay is ignored)
+		if !minimize && (variant == 0 || variant == 1) && !cancelled && !returned && terminalSeen() == nil {
+			for _, c := range sets[0].calls {
+				if c.started == 0 {
+					s.Fail("not-all-called-without-minimisation", "", "request minimisation is off (hedging delay %v) but %s has not been called: %s", hedge, c.id, describeSets(sets))
 				}
 			}
 		}
